@@ -528,6 +528,10 @@ def _array_equal(I, a, k):
 def _shape_arg(s):
     if isinstance(s, (tuple, list)):
         return tuple(s)
+    if isinstance(s, SArr):
+        if s.ndim != 1 or not isinstance(s.shape[0], int):
+            raise Unsupported("shape given as an array of symbolic length")
+        return tuple(wrap(s.read((z3.IntVal(i),))) for i in range(s.shape[0]))
     return (s,)
 
 
@@ -877,7 +881,7 @@ def _sym_attr(I, obj, name):
     if name == "transpose":
         return lambda *axes: A.transpose(a, axes[0] if len(axes) == 1 and isinstance(axes[0], (tuple, list)) else (axes or None))
     if name == "reshape":
-        return lambda *s, **kw: A.reshape(a, s[0] if len(s) == 1 and isinstance(s[0], (tuple, list)) else s)
+        return lambda *s, **kw: A.reshape(a, _shape_arg(s[0]) if len(s) == 1 and isinstance(s[0], (tuple, list, SArr)) else s)
     if name == "flatten" or name == "ravel":
         return lambda *x, **kw: A.reshape(a, (-1,))
     if name == "view":
@@ -1338,3 +1342,73 @@ def _hanning(I, a, k):
     arr = SArr(np.float64, (A.dim(n),), lambda idx: f(idx[0]))
     arr.facts_on_read = lambda idx, t: [t >= 0, t <= 1]
     return arr
+
+
+# ----------------------------------------------------------------------------- helpers used by fourier.fshift
+@model(np.iscomplexobj)
+def _iscomplexobj(I, a, k):
+    x = a[0]
+    if isinstance(x, SArr):
+        return x.dtype.kind == "c"
+    if isinstance(x, SV):
+        return False
+    return NotImplemented
+
+
+@model(np.isscalar)
+def _isscalar(I, a, k):
+    x = a[0]
+    if isinstance(x, SV):
+        return True
+    if isinstance(x, SArr):
+        return False
+    return NotImplemented
+
+
+@model(np.put)
+def _put(I, a, k):
+    """np.put(arr, ind, v) with scalar flat index and value (mode='raise')"""
+    arr, ind, v = a[0], a[1], a[2]
+    if not isinstance(arr, SArr):
+        return NotImplemented
+    if isinstance(ind, (list, tuple, np.ndarray, SArr)):
+        raise Unsupported("np.put with an index array")
+    total = z3.IntVal(1)
+    for d in arr.shape:
+        total = total * A.T(d)
+    it = term(ind)
+    A.oblige("put.in_bounds", z3.And(it >= -total, it < total), "np.put flat index out of range")
+    flat_i = z3.If(it < 0, it + total, it)
+    dims = [A.T(d) for d in arr.shape]
+    vt = A.cast_term(A.as_sarr(v).dtype, arr.dtype, A.as_sarr(v).read(()))
+
+    def cover(idx):
+        f = z3.IntVal(0)
+        for i, d in zip(idx, dims):
+            f = f * d + i
+        return z3.simplify(f) == flat_i
+    arr._write(cover, lambda idx: vt)
+    return None
+
+
+def _complex_opaque(name):
+    def m(I, a, k):
+        if not _anysym(a, k):
+            return NotImplemented
+        x = A.as_sarr(a[0])
+        if x.dtype.kind == "c":
+            CS = A.sort_of(x.dtype)
+            f = z3.Function(name + "_c!uf", CS, CS if name == "exp" else z3.RealSort())
+            dt = x.dtype if name == "exp" else (np.dtype("float32") if x.dtype == np.dtype("complex64") else np.dtype("float64"))
+            return _unbox(A.ewise(lambda t: f(t), dt, x))
+        if name == "angle":
+            f = z3.Function("angle_r!uf", z3.RealSort(), z3.RealSort())
+            dt = x.dtype if x.dtype.kind == "f" else np.dtype("float64")
+            return _unbox(A.ewise(lambda t: f(to_real(A.cast_term(x.dtype, dt, t))), dt, x))
+        return _opaque_unary(name)(I, a, k)
+    return m
+
+
+model(np.exp)(_complex_opaque("exp"))
+model(np.angle)(_complex_opaque("angle"))
+model(np.invert)(lambda I, a, k: (not a[0]) if isinstance(a[0], (bool, np.bool_)) else (ops.unop("Invert", a[0]) if _anysym(a) else NotImplemented))
